@@ -29,11 +29,14 @@ CFG = {'streams': [{'name': 'C08',
                 'lazy_block_order_fail_scoped_partial, Proofs/ScPerm*.v): the same whole-run statement for blocks that communicate through scoped '
                 'variables - definitions let @cap.x = e / node @cap.x, reads @cap.x in deferred positions, the reader may precede the definer; '
                 'reference evaluator over a static environment instead of the by-index acyclic store (lazy_eval_sound_scoped_partial, '
-                'lazy_eval_adequate_scoped_partial), renumbering monotone per block, adjacent exchanges of blocks (lazy_block_shift_scoped_partial). '
+                'lazy_eval_adequate_scoped_partial), renumbering monotone per block, adjacent exchanges of blocks (lazy_block_shift_scoped_partial). SCOPED READS INSIDE THUNKS '
+                '(lazy_block_order_iso_scoped_thunks_partial, lazy_block_order_fail_scoped_thunks_partial, Proofs/ScTh*.v): let @a.x = @b.y and chains, '
+                'local variables holding a scoped read (taint on variable names); store locations carry a ghost kind in a re-done simulation of the '
+                'execution phase (lazy_block_shift_scoped_thunks_partial); all 6 orders of a three-stanza chain (c08_thunks_six_orders). '
                 'Direct stream: every permutation on the implementation.',
  'partial': ['lazy_block_order_iso (whole-run invariance up to graph isomorphism) is proved on the fragment: scoped variables only as definitions with a capture as scope and a '
              'scoped-free value and as reads in deferred positions (node/source/sink of attr and edge statements, values of non-shorthand attributes, '
-             'print arguments, list literals of these); NOT covered: scoped reads inside thunks (values of local variables or of other scoped definitions), '
+             'print arguments, list literals of these); NOT covered: scoped reads '
              'as call arguments or set elements (values would mix nodes of several blocks: isomorphism up to re-sorting of sets), definitions with non-capture scopes; called functions graph-pure and equivariant under '
              'order-preserving renamings (all stdlib functions except node, format, join), globals only mention nodes of a closed initial graph, '
              'no debug attributes (with a location attribute an edge created by two stanzas keeps the attribute of the statement evaluated first: '
